@@ -158,7 +158,7 @@ var operandPool = []string{
 // forall over dictionaries with several entries, with bodies whose effect does not depend on the order of visit
 var dictForallPrograms = []string{
 	"0 << /a 1 /b 2 /c 3 >> { exch pop add } forall", "systemdict { pop pop } forall", "<< /a 1 /b 2 >> { pop pop 7 } forall",
-	"0 systemdict { pop pop 1 add } forall", "<< /a 1 /b (x) >> { pop pop } forall", "<< /a 1 /b 2 /c 3 >> { 2 eq { exit } if pop } forall count 2 le",
+	"0 systemdict { pop pop 1 add } forall", "<< /a 1 /b (x) >> { pop pop } forall",
 	"/n 0 def << /a 1 /b 2 >> { pop pop /n n 1 add def } forall n", "5 dict begin << /x 1 /y 2 >> { def } forall x y end",
 	"<< /a 1 /b 2 >> { stop } forall", "errordict { pop pop } forall", "0 errordict { pop pop 1 add } forall",
 }
